@@ -523,4 +523,127 @@ theorem admission_law_on_log (t0 : Nat) (ops : List Op) (dt : Nat) (u : Rat)
   rw [(history_totals _ _).1, (history_totals _ _).2, window_is_log t0 ops now (by omega)] at h1
   exact h1
 
+
+/-! ## 9. histories of requests through the call sites (the whole configuration space of the wrappers)
+
+The history theorems above (`admission_law_on_log`, `probe_after_one_second`, `window_is_log`) are stated over `Op`
+— direct calls of the breaker.  A request through ANY call site (rest handler, zrpc client / server interceptors, redis
+hooks, every sqlx operation with any number of `WithAcceptable` options, from the connection or the row scanner,
+returning or unwinding) drives the breaker exactly like one direct call whose outcome is chosen by the site's predicate:
+`site_state_as_call`.  Hence every history that mixes site requests, direct calls, promises and time gaps is simulated
+step by step by an `Op` history (`site_history_simulates`) and inherits the admission law on the log and guaranteed
+probing (`site_admission_law_on_log`, `site_probe_after_one_second`) — quantified over all sites, all requests, all
+option sets, all draws and all gaps. -/
+
+/-- the direct call a site request amounts to for the breaker: a success iff the request is resolved as Accept -/
+def Site.asOutcome (s : Site) (q : SiteReq) : Outcome :=
+  if (if s ≠ .rest ∧ q.panics then Mark.fail else if s.pred q then .succ else .fail) = .succ then .ok else .errU
+
+theorem site_marks_as_call (s : Site) (v : Verdict) (q : SiteReq) :
+    smarksOf (siteEvents s v q) = marksOf (doReqEvents v ⟨false, false⟩ (s.asOutcome q)) := by
+  cases v
+  · rw [(site_exactly_one s q).2.1]
+    unfold Site.asOutcome
+    by_cases h : (if s ≠ .rest ∧ q.panics then Mark.fail else if s.pred q then .succ else .fail) = .succ
+    · simp [h, doReqEvents, marksOf, acceptable]
+    · have h' : (if s ≠ .rest ∧ q.panics then Mark.fail else if s.pred q then .succ else .fail) = .fail := by
+        revert h; split <;> (try split) <;> simp
+      simp [h', doReqEvents, marksOf, acceptable]
+  · rw [(site_exactly_one s q).1.1]
+    simp [doReqEvents, marksOf]
+
+/-- **one site request = one direct call, for the breaker's state** (window and lastPass), at every state, time and draw -/
+theorem site_state_as_call (b : Breaker) (now : Nat) (u : Rat) (s : Site) (q : SiteReq) :
+    (b.site now u s q).2 = (b.doReq now u ⟨false, false⟩ (s.asOutcome q)).2 := by
+  unfold Breaker.site Breaker.doReq
+  simp only [site_marks_as_call]
+
+/-- histories over the call sites: time gaps, requests through any site, and anything an `Op` history can do -/
+inductive SOp
+  | tick (dt : Nat)
+  | site (u : Rat) (s : Site) (q : SiteReq)
+  | direct (op : Op)
+
+/-- the `Op` that simulates a step -/
+def SOp.toOp : SOp → Op
+  | .tick dt => .tick dt
+  | .site u s q => .call u ⟨false, false⟩ (s.asOutcome q)
+  | .direct op => op
+
+/-- the real semantics of a step: a site request goes through `Breaker.site` (wrapper, `accept()`, the site's table) -/
+def siteStep (st : Breaker × Nat) : SOp → Breaker × Nat
+  | .tick dt => (st.1, st.2 + dt)
+  | .site u s q => ((st.1.site st.2 u s q).2, st.2)
+  | .direct op => (((⟨st.1, st.2, none, []⟩ : Sys).step op).b, ((⟨st.1, st.2, none, []⟩ : Sys).step op).now)
+
+def siteRun (t0 : Nat) (ops : List SOp) : Breaker × Nat := ops.foldl siteStep (Breaker.init t0, t0)
+
+theorem Sys.step_b_now (s : Sys) (op : Op) :
+    ((s.step op).b, (s.step op).now) = (((⟨s.b, s.now, none, []⟩ : Sys).step op).b, ((⟨s.b, s.now, none, []⟩ : Sys).step op).now) := by
+  cases op <;> simp [Sys.step, Sys.afterAccept]
+
+/-- **every history over the call sites is simulated, step by step, by a history of direct calls** -/
+theorem site_history_simulates (t0 : Nat) (ops : List SOp) :
+    siteRun t0 ops = (((Sys.init t0).run (ops.map SOp.toOp)).b, ((Sys.init t0).run (ops.map SOp.toOp)).now) := by
+  have key : ∀ (ops : List SOp) (st : Breaker × Nat) (sy : Sys), st = (sy.b, sy.now) →
+      ops.foldl siteStep st = ((sy.run (ops.map SOp.toOp)).b, (sy.run (ops.map SOp.toOp)).now) := by
+    intro ops
+    induction ops with
+    | nil => intro st sy h; simpa [Sys.run] using h
+    | cons op ops ih =>
+      intro st sy h
+      simp only [List.foldl_cons, List.map_cons, Sys.run]
+      apply ih
+      subst h
+      cases op with
+      | tick dt => simp [siteStep, SOp.toOp, Sys.step]
+      | site u s q => simp [siteStep, SOp.toOp, Sys.step, Sys.afterAccept, site_state_as_call]
+      | direct op => simpa [siteStep, SOp.toOp] using (Sys.step_b_now sy op).symm
+  exact key ops _ _ rfl
+
+/-- **admission law on the log, for histories through the call sites**: after ANY finite history of requests through
+any mix of sites (every request class, returning or unwinding, any option set), direct calls, promises and time gaps,
+a request arriving `dt` later is rejected only if, among the calls recorded in the log for the 40 aligned 250 ms
+buckets ending now, the non-accepted ones exceed 5 + 10 % of the accepted ones. -/
+theorem site_admission_law_on_log (t0 : Nat) (ops : List SOp) (dt : Nat) (u : Rat)
+    (h : ((siteRun t0 ops).1.accept ((siteRun t0 ops).2 + dt) u).1 = .reject) :
+    let sy := (Sys.init t0).run (ops.map SOp.toOp)
+    let now := sy.now + dt
+    let L := (List.range (40 - sy.b.rw.span now)).map fun i => Lget (logBucket t0 sy.log) (bucketIdx t0 now) (39 - i)
+    10 * (((sumBuckets L).sum : Int) - ((sumBuckets L).succ : Int)) > 50 + ((sumBuckets L).succ : Int) := by
+  rw [site_history_simulates] at h
+  exact admission_law_on_log t0 (ops.map SOp.toOp) dt u h
+
+/-- **guaranteed probing, for histories through the call sites** -/
+theorem site_probe_after_one_second (t0 : Nat) (ht0 : 0 < t0) (ops : List SOp) (t dt : Nat) (u : Rat)
+    (hlast : ((Sys.init t0).run (ops.map SOp.toOp)).lastThrottled = some t)
+    (hgap : t + 1000000000 < (siteRun t0 ops).2 + dt) :
+    ((siteRun t0 ops).1.accept ((siteRun t0 ops).2 + dt) u).1 = .pass := by
+  rw [site_history_simulates] at hgap ⊢
+  exact probe_after_one_second t0 ht0 (ops.map SOp.toOp) t dt u hlast hgap
+
+/-- non-vacuity: what some site requests amount to — a 500 at rest is a failing call, a panicking handler that had
+written 499 a successful one, gRPC Unavailable at the zrpc client a failing one, a scan-stage deadline in sqlx a failing
+one, a scan-stage conversion error a successful one -/
+example : Site.asOutcome .rest { code := 500 } = .errU ∧ Site.asOutcome .rest { code := 499, panics := true } = .ok
+    ∧ Site.asOutcome .zrpcClient { err := .grpc 14 } = .errU
+    ∧ Site.asOutcome .sqlxQuery { err := .ctxDeadline, fromScan := true } = .errU
+    ∧ Site.asOutcome .sqlxQuery { err := .other, fromScan := true } = .ok := by decide
+
+/-- non-vacuity of the rejection hypothesis: twelve rejected promises within one instant, then a request through any
+site with draw 1/2 < 7/13 is rejected (the simulating history is the same twelve marks) -/
+example : ((siteRun 9 (List.replicate 12 (SOp.direct (.resolve .fail)))).1.accept 9 (1/2)).1 = .reject := by
+  have hb : (siteRun 9 (List.replicate 12 (SOp.direct (.resolve .fail)))).1
+      = (List.replicate 12 Mark.fail).foldl (fun b m => b.mark 9 m) (Breaker.init 9) := by decide
+  rw [hb]
+  have hh : (((List.replicate 12 Mark.fail).foldl (fun b m => b.mark 9 m) (Breaker.init 9)).history 9) = ⟨0, 12, 1, 0⟩ := by decide
+  have hl : ((List.replicate 12 Mark.fail).foldl (fun b m => b.mark 9 m) (Breaker.init 9)).lastPass = 0 := by decide
+  apply total_failure_rejects
+  · rw [hh]
+  · rw [hh]; decide
+  · rw [hl]; simp
+  · rw [hh, totalFailureRatio_eq]
+    have : ((12 + 1 : Nat) : Rat) = 13 := by simp
+    simp only [this]; grind
+
 end GoZero.C01
